@@ -4,6 +4,10 @@ import json, os
 ROOT = os.path.dirname(os.path.dirname(os.path.abspath(__file__)))
 TRUST = "TLC 1.8 and the CommunityModules Json/IOUtils; the Rust harness (vh) that drives the public API of /repo's crates; rustc/cargo"
 CHECKS = {
+ "C10": ("DESIGN.md section 6 C10",
+         "OnError.tla (R-level fold over items; the spec renders items to lines and so owns the expected line/file of every failing instruction: top level, function body, loop body, branch, caller of a script-implemented command, included file; exit_on_error toggling) model-checked for LatestWins / StopsAtFirst on every item sequence; each sequence is run on the real SDK from file and from text and every get_last_error* observation, the output variable and the failing outcome (message, line, source) are compared; random 30-item sequences are validated by TLC.",
+         "small-scope exhaustive on item sequences (<=3 quick, <=4 thorough), sampled beyond",
+         "TLA+ spec + TLC exhaustive; spec->impl replay; impl->spec trace validation"),
  "C14": ("DESIGN.md section 6 C14",
          "Includes.tla (Flatten = directive kept + listed files flattened in order with (file, own line) provenance; Paste = textual inlining; first error in inclusion order) model-checked on every acyclic tree of the bounded builder; each tree is materialised on disk with rotating reference forms (relative, ./, .., absolute; directories with spaces) and parse_file is compared entry by entry, run_script_file with run_script of the pasted text; random 6-file trees recorded from parse_file are validated by TLC.",
          "small-scope exhaustive on trees, sampled beyond; acyclic trees only",
